@@ -408,6 +408,17 @@ func (r *EngineRunner) keep(v []byte, what string) {
 
 // checkReturned: no later operation may have changed a slice the engine returned earlier.
 func (r *EngineRunner) checkReturned(after string) {
+	// the caller owns a returned slice, its spare capacity included (what append would use): fill it
+	for _, x := range r.returned {
+		if spare := x.live[len(x.live):cap(x.live)]; len(spare) > 0 {
+			if len(spare) > 1024 {
+				spare = spare[:1024]
+			}
+			for i := range spare {
+				spare[i] = 0xA5
+			}
+		}
+	}
 	for _, x := range r.returned {
 		if !bytes.Equal(x.live, x.want) {
 			r.fail("C15", "the value returned by %s was modified by a later operation (%s)", x.what, after)
@@ -944,6 +955,8 @@ func (r *EngineRunner) Exec(f []string) (res string) {
 		out := "ok " + Obs(v) + r.takeEvents(false)
 		r.keep(v, "Batch.Get("+f[2]+")")
 		return out
+	case "holebatch":
+		return r.holeBatch(atoi(f[2]), atoi(f[3]))
 	case "commitfail":
 		// E commitfail: the Commit of the open batch while the operating system refuses every write to the active file.
 		// The call must report the error, nothing of the batch may become visible, the batch is finished, and the
